@@ -16,7 +16,11 @@ EXPLANATION = ("Theorems in coq/Props/C04.v: for every construct, input, worker 
                "proved from (i) a decidable check on the network term (wf_net/static_under: every blocking instruction of every goroutine is "
                "ctx-guarded by a context under the cancelled root, wait-group members never wait unguarded), (ii) the invariant that the contexts "
                "of all started goroutines lie under that root, (iii) ctx_guarded_enabled. Split carries its starter hypothesis and the refutation. "
-               "The driver runs every real construct through every (n, k, mode, workers) scenario and polls goroutine stacks; the observed outcome "
+               "The driver runs every real construct through every (n, k, mode, workers) scenario - including Split with one consumer goroutine per output "
+               "(own contexts; the starter output is closed / cancelled while the others keep reading), a receiver ranging over BufferedChannel/Channel "
+               "while its context is cancelled, and GenerateParallel x {abort, ContinueOnError, ContinueOnPanic, both} x generator behaviours {ends, "
+               "returns ctx.Err(), fails for ever ignoring ctx, panics for ever ignoring ctx} with a 'generator still called after the stop' counter - "
+               "and polls goroutine stacks; the observed outcome "
                "class must equal the one the executable model produces for the same scenario.")
 READY = True
 LEVEL_TEXT = ("Machine-checked Coq theorems over GoLite networks (any input, worker count, buffer size, cut point, schedule): "
@@ -25,7 +29,13 @@ LEVEL_TEXT = ("Machine-checked Coq theorems over GoLite networks (any input, wor
               "wf_net/static_under on the network term, (ii) the invariant that every started goroutine's context lies under the cancelled root, "
               "(iii) C04_ctx_guarded_enabled; C04_split under the exact starter hypothesis and C04_split_starter_abandoned_refuted (known finding); "
               "C04_close_idempotent (Close is enabled in every state, a second Close is unobservable); C04_finite_input_eof_partial - deadlock "
-              "freedom of un-aborted runs for the single-pump constructs (Buffer any size, Chain, MergeSlices, MergeSliceIterators, dt.Map, adt.Map).")
+              "freedom of un-aborted runs for the single-pump constructs (Buffer any size, Chain, MergeSlices, MergeSliceIterators, dt.Map, adt.Map); "
+              "C04_loops_ctx_guarded(_constructs) - static check loops_guarded (every cycle of every control graph passes an instruction that consults "
+              "a context: select with ctx.Done, wg.Wait(ctx), explicit ctx.Err() test; user code does not count) holds for every construct and bounds "
+              "the instructions between two consultations; C04_unguarded_retry_loop_refuted - GenerateParallel's worker without its ctx.Err() test is "
+              "rejected and spins for ever under ContinueOnError with a failing generator; C04_split_others_released / C04_range_receiver_released - "
+              "the pump's deferred close is on its cancellation path, so Split consumers of non-starter outputs (live contexts) and a receiver ranging "
+              "over BufferedChannel/Channel are released when the pump's context ends; C04_close_skipped_on_error_path_refuted - the counter-models.")
 LEVEL_NOTE = ("Partial in DESIGN's sense: channel hand-off, WaitGroup, context tree (cancellation reaches derived contexts atomically) and goroutine "
               "exit are model primitives; goroutine exit on the real code is observed by the stack-polling oracle only (10 s bounds, never short "
               "sleeps). The tie is outcome-level per scenario (leak count / stuck / EOF vs. the executable model's outcome for the same scenario). "
